@@ -233,6 +233,8 @@ def run(ctx):
     ctx.sample({"directed[%s]" % gen.DIRECTED[2][0]: gen.to_text(gen.DIRECTED[2][1], gen.DIRECTED[2][2])})
     jobs = [(name, sc, runs, fls) for name, sc, runs, fls in gen.DIRECTED]
     jobs += [(i, sc, None, ("hooks", "asan")) for i, sc in enumerate(scs)]
+    if os.environ.get("VERIF_C10_DIRECTED_ONLY"):   # development aid: the explicit directed schedules + the self-test scenario only
+        jobs = [j for j in jobs if j[2] is not None or j[0] == "probe"]
     plans = ctx.pmap(lambda j: plan_scenario(ctx, *j), jobs)
     chunks = [c for p in plans for c in p]
     # expensive chunks first
